@@ -94,3 +94,13 @@ def free_policy(ctx, **kw):
             ex.assume(a)
     kw.setdefault('assume_sorted_spectrum', False)
     return lapack.set_policy(lapack.FreePolicy(model_overwrite=True, overwrite_table=_OW['tab'], **kw))
+
+
+def spec_sorted(v, descending=False):
+    """eigenvalues as a canonically ordered complex vector: by real part, then imaginary part, both rounded to 1e-7 so that a conjugate pair whose real
+    parts differ by rounding noise is ordered the same way on both sides of a comparison"""
+    import numpy as _np
+    v = _np.asarray(v, dtype=complex).reshape(-1)
+    idx = _np.lexsort((_np.round(v.imag, 7), _np.round(v.real, 7)))
+    out = v[idx]
+    return out[::-1] if descending else out
